@@ -96,9 +96,11 @@ def poison_pass(lat, lon, alt, bump):
         forms = [(la, lo, al)] if sl.stop > 1 else [(la, lo, al), (float(la[0]), float(lo[0]), float(al[0]))]
         for a, b, c in forms:
             L = np.column_stack([a, b, c]) if np.ndim(a) else np.array([a, b, c])
+            Lp = L.copy()
+            Lp[..., 0] = np.clip(Lp[..., 0], -89.0, 89.0)      # a metre displacement has no longitude image at the poles themselves
             res = [earth.principal_radii(a, c), earth.gravity(a, c), earth.gravity_n(a, c), earth.gravitation_ecef(L), earth.curvature_matrix(a, c),
                    earth.rate_n(a), transform.lla_to_ecef(L), transform.mat_en_from_ll(a, b), transform.lla_to_ned(L, L if L.ndim == 1 else L[0]),
-                   transform.perturb_lla(L, np.ones_like(L)), transform.compute_lla_difference(L, L)]
+                   transform.perturb_lla(Lp, np.ones_like(L)), transform.compute_lla_difference(L, L)]
             res.append(transform.ecef_to_lla(np.array(res[6], dtype=float)))
             for r in res:
                 for x in (r if isinstance(r, tuple) else (r,)):
@@ -112,7 +114,7 @@ def run_whole_numbers(case, lat, lon, alt, out, obs, bump, fail):
     numbers as floats must give the same geometry, and the ECEF <-> geodetic round trip must close on them as on any other point."""
     from pyins import earth, transform
     rng = np.random.Generator(np.random.PCG64(case['seed'] + 5))
-    lat, lon, alt = np.rint(lat), np.rint(lon), np.rint(alt)
+    lat, lon, alt = np.clip(np.rint(lat), -89, 89), np.rint(lon), np.rint(alt)       # (metre displacements have no longitude image at the poles)
     lla = np.column_stack([lat, lon, alt])
     ecef = np.rint(transform.lla_to_ecef(np.column_stack([lat + rng.uniform(-0.4, 0.4, len(lat)), lon + rng.uniform(-0.4, 0.4, len(lat)), alt])))
     dr = np.rint(rng.standard_normal(lla.shape) * 50)
